@@ -329,3 +329,150 @@ Proof.
   intros Hwf Hd. unfold place. apply place_from_shift; auto.
   intros p Hp. eapply Z.divide_trans; [apply SA_div; eauto|exact Hd].
 Qed.
+
+(* ---------- packaged statements used by the Properties_* files ---------- *)
+Theorem place_aligned L cnts a :
+  wf_plist L = true -> Forall2 cnt_ok L cnts -> 0 <= a -> (SA L | a) ->
+  Forall2 (fun p x => (pal p | x)) L (fst (place L cnts a)).
+Proof.
+  intros Hwf Hc Ha Hd. eapply chain_aligned. apply place_chain; auto.
+  - apply wf_plist_Forall; auto.
+  - apply wf_plist_nonempty; auto.
+Qed.
+
+Theorem place_shift_fst L cnts a d : wf_plist L = true -> (SA L | d) ->
+  fst (place L cnts (a + d)) = map (fun x => x + d) (fst (place L cnts a)).
+Proof. intros Hwf Hd. rewrite place_shift; auto. apply wf_plist_Forall; auto. Qed.
+
+Theorem place_shift_snd L cnts a d : wf_plist L = true -> (SA L | d) ->
+  snd (place L cnts (a + d)) = snd (place L cnts a) + d.
+Proof. intros Hwf Hd. rewrite place_shift; auto. apply wf_plist_Forall; auto. Qed.
+
+(* C04: fields in parameter order, inside [a, end), pairwise disjoint *)
+Theorem place_ordered L cnts a :
+  wf_plist L = true -> Forall2 cnt_ok L cnts -> 0 <= a -> (SA L | a) ->
+  ordered_from a (extents L cnts (fst (place L cnts a))) (snd (place L cnts a)).
+Proof.
+  intros Hwf Hc Ha Hd. apply chain_ordered; auto; [apply wf_plist_Forall; auto|].
+  apply place_chain; auto; [apply wf_plist_Forall; auto|apply wf_plist_nonempty; auto].
+Qed.
+
+(* C05: every field sits at the lowest suitably aligned address after its predecessor *)
+Fixpoint tight_from (lo : Z) (L : list param) (cnts xs : list Z) : Prop :=
+  match L, cnts, xs with
+  | p :: L', c :: cnts', x :: xs' => x = align_up lo (pal p) /\ tight_from (x + c * psz p) L' cnts' xs'
+  | [], [], [] => True
+  | _, _, _ => False
+  end.
+
+Lemma chain_tight L cnts lo xs e : chain L cnts lo xs e -> tight_from lo L cnts xs.
+Proof. induction 1 as [|p L c cnts lo x xs e [H1 H2 H3] _ IH]; cbn [tight_from]; auto. Qed.
+
+Theorem place_tight L cnts a :
+  wf_plist L = true -> Forall2 cnt_ok L cnts -> 0 <= a -> (SA L | a) ->
+  tight_from a L cnts (fst (place L cnts a)).
+Proof.
+  intros Hwf Hc Ha Hd. eapply chain_tight. apply place_chain; auto;
+    [apply wf_plist_Forall; auto|apply wf_plist_nonempty; auto].
+Qed.
+
+(* the first field of an element stored at an SA-aligned address is at that address *)
+Theorem place_first L cnts a : wf_plist L = true -> Forall2 cnt_ok L cnts -> 0 <= a -> (SA L | a) ->
+  hd a (fst (place L cnts a)) = a.
+Proof.
+  intros Hwf Hc Ha Hd. pose proof (place_tight L cnts a Hwf Hc Ha Hd) as Ht.
+  destruct L as [|p L]; [discriminate|]. destruct cnts as [|c cnts]; [inversion Hc|].
+  destruct (fst (place (p :: L) (c :: cnts) a)) as [|x xs] eqn:E; [reflexivity|].
+  cbn [tight_from] in Ht. destruct Ht as [-> _]. cbn [hd].
+  apply align_up_id.
+  - apply pow2_pos. pose proof (wf_plist_Forall _ Hwf) as HF. inversion HF as [|? ? [_ H] _]; auto.
+  - eapply Z.divide_trans; [|exact Hd]. apply SA_div; [apply wf_plist_Forall; auto|left; reflexivity].
+Qed.
+
+Lemma align_if_ge_ c al a : 0 < al -> a <= align_if c al a.
+Proof. intros H. unfold align_if. destruct c; [apply align_up_ge; auto|lia]. Qed.
+
+(* ---------- the end of an element: align_for_first_parameter ---------- *)
+Lemma place_from_final L : forall st prev cnts a,
+  Forall wfp L -> Forall2 cnt_ok L cnts -> Inv st prev a ->
+  let pvs := prev :: trails_from L st in
+  pow2 (last pvs 0) /\ (last pvs 0 | snd (place_from L pvs cnts a)) /\ 0 <= snd (place_from L pvs cnts a).
+Proof.
+  induction L as [|p L IH]; intros st prev cnts a Hwf Hc HI.
+  - inversion Hc; subst. cbn. destruct st as [off br]. destruct HI as (_ & Ha & _ & _ & Hp & Hd). auto.
+  - inversion Hc as [|? c ? cnts' Hc1 Hcr]; subst. inversion Hwf as [|? ? Hwp HwL]; subst.
+    cbn [trails_from].
+    pose proof (step_sound p st prev a c Hwp Hc1 HI) as Hs. cbv zeta in Hs.
+    destruct (tr_step p st) as [st' t] eqn:Ets. cbn [fst snd] in Hs.
+    destruct Hs as (_ & _ & _ & HI').
+    specialize (IH st' t cnts' (align_if (prev <? pal p) (pal p) a + c * psz p) HwL Hcr HI').
+    cbv zeta in *. cbn [place_from].
+    destruct (place_from L (t :: trails_from L st') cnts' (align_if (prev <? pal p) (pal p) a + c * psz p)) as [r e].
+    cbn [fst snd] in *.
+    replace (last (prev :: t :: trails_from L st') 0) with (last (t :: trails_from L st') 0) by reflexivity.
+    exact IH.
+Qed.
+
+Lemma trails_from_length L : forall st, length (trails_from L st) = length L.
+Proof.
+  induction L as [|q L IH]; intros st; cbn [trails_from length]; [reflexivity|].
+  destruct (tr_step q st). cbn [length]. f_equal. apply IH.
+Qed.
+
+Lemma nth_last_ (ts : list Z) : forall t, nth (length ts) (t :: ts) 0 = last (t :: ts) 0.
+Proof.
+  induction ts as [|u ts IH]; intros t; [reflexivity|].
+  cbn [length]. change (nth (S (length ts)) (t :: u :: ts) 0) with (nth (length ts) (u :: ts) 0).
+  rewrite IH. reflexivity.
+Qed.
+
+Lemma prev_tr_last L : L <> [] -> prev_tr L (length L) = last (prevs L) 0.
+Proof.
+  intros Hne. unfold prev_tr, prevs. destruct L as [|p L]; [congruence|].
+  cbn [length]. pose proof (trails_from_length (p :: L) (0, SA (p :: L))) as Hl. fold (trails (p :: L)) in Hl.
+  destruct (trails (p :: L)) as [|t ts] eqn:E; [cbn in Hl; lia|].
+  replace (last (SA (p :: L) :: t :: ts) 0) with (last (t :: ts) 0) by reflexivity.
+  cbn [length] in Hl. injection Hl as Hl. rewrite <- Hl. apply nth_last_.
+Qed.
+
+(* the address where the NEXT element starts is a multiple of the storage alignment,
+   and it is the least such address at or after the end of this element *)
+Theorem first_align_end L cnts a :
+  wf_plist L = true -> Forall2 cnt_ok L cnts -> 0 <= a -> (SA L | a) ->
+  let e := snd (place L cnts a) in
+  (SA L | first_align L e) /\ e <= first_align L e /\ first_align L e = align_up e (SA L).
+Proof.
+  intros Hwf Hc Ha Hd.
+  pose proof (wf_plist_Forall _ Hwf) as HF. pose proof (wf_plist_nonempty _ Hwf) as Hne.
+  pose proof (SA_pow2 L HF Hne) as HS. pose proof (pow2_pos _ HS) as HSp.
+  pose proof (place_from_final L (0, SA L) (SA L) cnts a HF Hc (Inv_init L a HF Hne Ha Hd)) as Hf.
+  cbv zeta in Hf. fold (trails L) in Hf. fold (prevs L) in Hf. fold (place L cnts a) in Hf.
+  destruct Hf as (Hp & Hdv & He0). cbv zeta. unfold first_align, align_if.
+  rewrite prev_tr_last by auto.
+  destruct (Z.ltb_spec (last (prevs L) 0) (SA L)) as [Hlt|Hge].
+  - split; [apply align_up_div; auto|]. split; [apply align_up_ge; auto|reflexivity].
+  - assert (Hsd : (SA L | snd (place L cnts a))).
+    { eapply Z.divide_trans; [|exact Hdv]. apply pow2_divide; auto. }
+    split; [exact Hsd|]. split; [lia|]. symmetry. apply align_up_id; auto.
+Qed.
+
+Lemma first_align_aligned L a : wf_plist L = true -> (SA L | a) -> first_align L a = a.
+Proof.
+  intros Hwf Hd. pose proof (wf_plist_Forall _ Hwf) as HF. pose proof (wf_plist_nonempty _ Hwf) as Hne.
+  pose proof (pow2_pos _ (SA_pow2 L HF Hne)).
+  unfold first_align, align_if. destruct (_ <? _); [apply align_up_id; auto|reflexivity].
+Qed.
+
+Lemma first_align_shift L a d : wf_plist L = true -> (SA L | d) -> first_align L (a + d) = first_align L a + d.
+Proof.
+  intros Hwf Hd. pose proof (wf_plist_Forall _ Hwf) as HF. pose proof (wf_plist_nonempty _ Hwf) as Hne.
+  pose proof (pow2_pos _ (SA_pow2 L HF Hne)).
+  unfold first_align, align_if. destruct (_ <? _); [apply align_up_shift; auto|reflexivity].
+Qed.
+
+Lemma first_align_ge L a : wf_plist L = true -> a <= first_align L a.
+Proof.
+  intros Hwf. pose proof (wf_plist_Forall _ Hwf) as HF. pose proof (wf_plist_nonempty _ Hwf) as Hne.
+  pose proof (pow2_pos _ (SA_pow2 L HF Hne)).
+  unfold first_align. apply align_if_ge_; auto.
+Qed.
